@@ -147,3 +147,11 @@ reg("C43", "model_checking", "TLA+ spec P2P (transport-layer connection, modulus
     "must be a behaviour of the spec. Traces that only the named deviation DEV_ACK_ALL explains are the open known finding.",
     "Trusted: TLC, the virtual-time loop, the scripted device. Which acknowledgement ends a wait is not constrained (not observable).",
     "DESIGN.md section 5 C43")
+
+reg("C44", "model_checking", "TLA+ model AddrWrite (procedure steps on a bus population) model-checked with TLC over every population; trace validation of the real procedures on a simulated KNX bus; TLA+ reference for serial-number procedures and two-step authorization",
+    "AddrWrite is model-checked over all 5832 populations of three devices (write only with exactly one device in programming mode and no other reacting device at "
+    "the target, restart only at the target, no new conflict); the real nm_individual_address_write runs on every population of up to two devices and a sample of "
+    "three-device populations (all of them in thorough) with simulated devices that apply writes and restarts, and every trace (write broadcast, restarts, result, bus "
+    "afterwards) must satisfy the same clauses; serial-number read/write and dmp_authorize2_r_co results are judged by the TLA+ reference on all response / level combinations.",
+    "Trusted: TLC, the virtual-time loop, the simulated bus (20 ms reaction latency).",
+    "DESIGN.md section 5 C44")
